@@ -12,7 +12,8 @@ class Driver(object):
                  ticks=(), max_ticks=0, max_restarts=0, max_adds=1, learned=True,
                  allocate_ranks=(0,), release_forms=("named",), close_forms=("bare",),
                  max_drops=None, dropall=False, max_events=None, client_versions=(None,),
-                 reopen_after_close=False, invalid=False):
+                 reopen_after_close=False, invalid=False, macro_bind=True):
+        self.macro_bind = macro_bind
         self.binds = binds                  # list per connection index: [(app, side), ...]
         self.max_conns = max_conns if max_conns is not None else len(binds)
         self.names = tuple(names)
@@ -38,7 +39,12 @@ class Driver(object):
         opened = sorted(ghost.conns)
         nxt = len(opened)
         if nxt < self.max_conns and (not opened or ghost.conns[opened[-1]].app is not None or not ghost.conns[opened[-1]].alive):
-            evs.append(("conn", nxt))
+            if self.macro_bind:
+                for (app, side) in self.binds[nxt]:
+                    for cv in self.client_versions:
+                        evs.append(("cbind", nxt, app, side, cv) if cv is not None else ("cbind", nxt, app, side))
+            else:
+                evs.append(("conn", nxt))
         for c in opened:
             g = ghost.conns[c]
             if not g.alive:
